@@ -269,7 +269,14 @@ fn main_inner() -> Result<(), RunError> {
             }
         }
     } else {
-        match std::io::stdout().write_all(output.as_bytes()) {
+        // Standard output is line-buffered: without an explicit flush, a
+        // final line without newline would only be written (and its error
+        // ignored) when the process exits.
+        let mut stdout = std::io::stdout();
+        match stdout
+            .write_all(output.as_bytes())
+            .and_then(|()| stdout.flush())
+        {
             Ok(()) => {}
             Err(e) => {
                 eprintln!("failed to write to stdout: {e}");
